@@ -498,6 +498,9 @@ func RunE2E(t *testing.T, in *RunInput) {
 			k.ReleaseWeight = sc.Sched.ReleaseWeight
 		}
 		k.FIFO = sc.Sched.FIFO
+		if sc.Sched.LazyClock {
+			k.LazyClock, k.lazySet = true, true
+		}
 		if sc.Sched.Slow != "" {
 			k.SetSlow(sc.Sched.Slow, sc.Sched.SlowDiv)
 		}
